@@ -594,6 +594,7 @@ def build_cases(tier="quick"):
     from contracts import c02
 
     ref = [Case(f"{PROP}/sevm.SEVM.calldataload", c.case, c.harness, replay=c.replay, sources=c.sources) for c in c02.calldataload_cases()]
+    ref += [Case(f"{PROP}/sevm.Path.branch#size-tables-owned", c.case, c.harness, replay=c.replay, sources=c.sources) for c in c02.path_cases() if "Path.branch" in c.unit]
     return encode_tuple_cases() + encode_cases() + dyn_sizes_cases() + create_cases() + ref
 
 
